@@ -120,7 +120,8 @@ class Program:
         self.repo = repo or REPO
         self.pkg = pkg
         # SA_NORMALISE=1: analyse the N1 normal form (unknown private helpers inlined, sa/core/normalise.py)
-        self.normalise = os.environ.get("SA_NORMALISE", "") == "1"
+        self.normalise = os.environ.get("SA_NORMALISE", "") in ("1", "2")      # "1": N1 only, "2": N1 + N2
+        self.unroll = os.environ.get("SA_NORMALISE", "") == "2"
         self.normal_info = {}
         self.modules: dict[str, ModuleInfo] = {}
         self.consulted: set[str] = set()
@@ -158,7 +159,7 @@ class Program:
                                 exported = tuple(ast.literal_eval(st.value))
                             except Exception:
                                 exported = ()
-                    tree, info = normalise_module(tree, exported)
+                    tree, info = normalise_module(tree, exported, unroll=self.unroll)
                     if info["call_sites"] or info.get("loops_unrolled"):
                         self.normal_info[rel] = info
                 m = ModuleInfo(name=name, path=path, relpath=rel, source=src, tree=tree, is_pkg=is_pkg)
